@@ -125,7 +125,7 @@ func Replay(w Witness) int {
 		_ = json.Unmarshal(w.Replay, &rp)
 		recurs := 0
 		for i := 0; i < 3; i++ {
-			res := ExpandKV(KVJob{Cfg: rp.Cfg, Path: rp.Path, Tier: 1, Only: []string{rp.Op}, Full: i == 0})
+			res := ExpandKV(KVJob{Cfg: rp.Cfg, Path: rp.Path, Tier: 1, Only: []string{rp.Op}, Full: i == 0, ExtraBackfills: w.Prop == "C09"})
 			if res.Err != "" {
 				fmt.Println("replay error:", res.Err)
 				return 2
